@@ -88,17 +88,66 @@ def _r6(ctx):
     ctx.floor("R6", "writes to element_count", n, 2)
 
 
-def _resolve(e, sets):
-    if isinstance(e, tuple) and len(e) == 2 and e[0] == "name" and e[1] in sets:
-        return _resolve(sets[e[1]], sets)
-    if isinstance(e, tuple):
-        return tuple(_resolve(x, sets) if isinstance(x, tuple) else x for x in e)
-    return e
+def _scan(tree, items, env, guards=()):
+    """The items of one template scope in order, with the `{% set %}` bindings in force at each item (names substituted, value
+    macros inlined) and the enclosing `{% if %}` tests; descends into if-arms (same scope), not into loops."""
+    for it in items:
+        if it[0] == "set" and it[1][0] == "name":
+            env[it[1][1]] = J.subst(J.inline_macros(tree, it[-1], it[2]), env)
+        elif it[0] == "if":
+            yield from _scan(tree, it[2], env, guards + (("if+", it[1], dict(env)),))
+            yield from _scan(tree, it[3], env, guards + (("if-", it[1], dict(env)),))
+        else:
+            yield it, env, guards
+
+
+def _expr(tree, it, e, env):
+    return J.subst(J.inline_macros(tree, it[6] if it[0] == "for" else it[-1], e), env)
+
+
+def _ws(pieces):
+    """pieces with whitespace runs of the literals collapsed and the ends stripped"""
+    out = []
+    for p in pieces:
+        if p[0] == "lit":
+            t = re.sub(r"\s+", " ", p[1])
+            if out and out[-1][0] == "lit":
+                out[-1] = ("lit", re.sub(r"\s+", " ", out[-1][1] + t))
+            else:
+                out.append(("lit", t))
+        else:
+            out.append(p)
+    if out and out[0][0] == "lit":
+        out[0] = ("lit", out[0][1].lstrip())
+    if out and out[-1][0] == "lit":
+        out[-1] = ("lit", out[-1][1].rstrip())
+    return [p for p in out if p != ("lit", "")]
+
+
+def _printed(tree, items, env):
+    """what a run of text / output items prints, as pieces (sets followed); a control item ends the run with ("ctl", item)"""
+    out = []
+    for it, env_, guards in _scan(tree, items, env):
+        if it[0] == "text":
+            out.append(("lit", it[1]))
+        elif it[0] == "out":
+            out.extend(J.str_pieces(_expr(tree, it, it[1], env_)))
+        else:
+            out.append(("ctl", it, dict(env_), guards))
+    return out
+
+
+def _mentions(e, name):
+    return e == name or (isinstance(e, tuple) and any(_mentions(x, name) for x in e if isinstance(x, tuple)))
+
+
+SPECIES_SEQ = ("attr", ("name", "network"), "species")
 
 
 def _r1(ctx):
     ctx.saw(PHYS)
-    items = J.flatten(ctx.tree, PHYS, {})
+    tree = ctx.tree
+    items = J.flatten(tree, PHYS, {})
     sk = Skel(items)
     fn = "GetElementAbund"
     if not sk.func(fn):
@@ -112,74 +161,104 @@ def _r1(ctx):
     ctx.check(o[2] == ("attr", ("name", "network"), "elements") and o[7] is None, "R1", f"{fn}:element-loop", (PHYS, o[5]),
               "one branch per element of the unfiltered network.elements", found=J.show(o[2]))
     evar = o[1]
-    # walk the body in order, tracking {% set %}
-    sets = {}
-    guard_expr = None
-    inner = None
-    prev_text = ""
-    for it in o[3]:
+    # bindings made before the loop (function scope) stay visible inside it
+    env0 = {}
+    for it, off in sk.items_in(fn):
+        if it is o:
+            break
         if it[0] == "set" and it[1][0] == "name":
-            sets[it[1][1]] = _resolve(it[2], sets)
-        elif it[0] == "text":
-            prev_text = it[1]
-        elif it[0] == "out":
-            if re.search(r"elemidx\s*==\s*IDX_ELEM_$", prev_text):
-                guard_expr = (_resolve(it[1], sets), it[2])
-            prev_text = ""
-        elif it[0] == "for":
-            inner = (it, dict(sets))
-    ctx.check(guard_expr is not None and guard_expr[0] == FIRST_KEY(evar), "R1", f"{fn}:guard", (PHYS, guard_expr[1] if guard_expr else o[5]),
-              "branch guard is `elemidx == IDX_ELEM_<first key of this element's element_count>`",
-              expected=J.show(FIRST_KEY(evar)), found=J.show(guard_expr[0]) if guard_expr else "no guard")
+            env0[it[1][1]] = J.subst(J.inline_macros(tree, it[-1], it[2]), env0)
+    # what the branch prints before the species loop: `if (elemidx == IDX_ELEM_<..>) {`
+    pieces = _printed(tree, o[3], dict(env0))
+    guard_expr = None
+    inner = []
+    macro_uses = 0
+    for i, p in enumerate(pieces):
+        if p[0] == "lit" and p[1].endswith("IDX_ELEM_"):
+            macro_uses += 1
+            if re.search(r"(elemidx\s*==|case)\s*IDX_ELEM_$", p[1]) and i + 1 < len(pieces) and pieces[i + 1][0] == "val":
+                guard_expr = pieces[i + 1][1]
+        if p[0] == "ctl" and p[1][0] == "for":
+            inner.append(p)
+    if guard_expr is None or macro_uses != 1:
+        ctx.unrec("R1", f"{fn}:guard", (PHYS, o[5]), "the branch of one element is not selected by `elemidx == IDX_ELEM_<..>`: shape not understood")
+    else:
+        ctx.check(guard_expr == FIRST_KEY(evar), "R1", f"{fn}:guard", (PHYS, o[5]),
+                  "branch guard is `elemidx == IDX_ELEM_<first key of this element's element_count>`",
+                  expected=J.show(FIRST_KEY(evar)), found=J.show(guard_expr))
     # the macro header uses the same suffix expression over the same sequence, paired with loop.index0
-    mit = J.flatten(ctx.tree, MACROS, {})
+    mit = J.flatten(tree, MACROS, {})
     ctx.saw(MACROS)
     mloops = [it for it, st in J.walk_items(mit) if it[0] == "for" and J.path(it[2]) == "network.elements"]
     okm = False
+    foundm = None
     if len(mloops) == 1:
         ml = mloops[0]
-        outs = [x for x in ml[3] if x[0] == "out"]
-        txt = "".join(x[1] for x in ml[3] if x[0] == "text")
-        okm = len(outs) == 2 and outs[0][1] == FIRST_KEY(ml[1]) and outs[1][1] == ("attr", ("name", "loop"), "index0") and "#define IDX_ELEM_" in txt
+        got = _ws(_printed(tree, ml[3], {}))
+        want = [("lit", "#define IDX_ELEM_"), ("val", FIRST_KEY(ml[1])), ("lit", " "), ("val", ("attr", ("name", "loop"), "index0"))]
+        okm = got == want and ml[7] is None and ml[2] == ("attr", ("name", "network"), "elements")
+        foundm = " ".join(p[1] if p[0] == "lit" else "{{ " + J.show(p[-1]) + " }}" if p[0] != "ctl" else "{% .. %}" for p in got)
     ctx.check(okm, "R1", "macros:IDX_ELEM", (MACROS, mloops[0][5] if mloops else 0),
-              "the header defines IDX_ELEM_<first key> = loop.index0 over the same network.elements")
-    if inner is None:
+              "the header defines IDX_ELEM_<first key> = loop.index0 over the same network.elements", found=foundm)
+    if not inner:
         ctx.missing("R1", f"{fn}:species-loop", (PHYS, o[5]), "no loop over the species inside the element branch")
         return
-    it, sets0 = inner
-    itx = _resolve(it[2], sets0)
-    spec_ab = ("filter", "map", ("filter", "map", ("filter", "map", ("attr", ("name", "network"), "species"), (), (("attribute", ("const", "alias")),)),
-                                 (("const", "prefix"), ("const", "y[IDX_")), ()), (("const", "suffix"), ("const", "]")), ())
-    want_iter = ("call", ("name", "zip"), (("attr", ("name", "network"), "species"), spec_ab), ())
-    ctx.check(itx == want_iter and it[7] is None, "R1", f"{fn}:species-loop", (PHYS, it[5]),
-              "the sum ranges over zip(network.species, y[IDX_<alias>] of the same network.species)",
-              expected=J.show(want_iter), found=J.show(itx))
-    if it[1][0] not in ("tuple", "list") or len(it[1][1]) != 2:
-        ctx.bad("R1", f"{fn}:species-loop-vars", (PHYS, it[5]), "loop must bind (species, abundance symbol)", found=J.show(it[1]))
+    _, it, env1, _g = inner[-1]
+    # the loop is normalised to: one species variable ranging over a base sequence, plus names computed from that element
+    itx = _expr(tree, it, it[2], env1)
+    env2 = dict(env1)
+    svar = None
+    if itx[0] == "call" and itx[1] == ("name", "zip") and not itx[3] and it[1][0] in ("tuple", "list") and len(it[1][1]) == len(itx[2]) \
+            and all(t[0] == "name" for t in it[1][1]):
+        # zip(S, S | map(..)): the k-th name is the k-th element-wise expression of one element of S
+        svar = it[1][1][0]
+        base = itx[2][0]
+        for t, seq in list(zip(it[1][1], itx[2]))[1:]:
+            b2, ex = J.elementwise(seq, svar)
+            if b2 != base:
+                ctx.bad("R1", f"{fn}:species-loop", (PHYS, it[5]),
+                        "the species and the abundance symbols paired by zip() do not come from the same sequence",
+                        expected=f"zip({J.show(base)}, {J.show(base)} | map(..))", found=J.show(itx))
+                return
+            env2[t[1]] = ex
+    elif it[1][0] == "name":
+        svar, base = it[1], itx
+    else:
+        ctx.unrec("R1", f"{fn}:species-loop", (PHYS, it[5]), f"loop over {J.show(itx)} binding {J.show(it[1])}: shape not understood")
         return
-    svar, abvar = it[1][1]
-    sets1 = dict(sets0)
-    term = None
-    for x, st in J.walk_items(it[3]):
-        if x[0] == "set" and x[1][0] == "name":
-            sets1[x[1][1]] = _resolve(x[2], sets1)
-        if x[0] == "out" and x[1][0] == "concat":
-            guards = [g for g in st if g[0] in ("if+", "if-")]
-            term = (x, guards, dict(sets1))
-    if term is None:
-        ctx.missing("R1", f"{fn}:term", (PHYS, it[5]), "no `count*abundance + ` output found")
+    if base != SPECIES_SEQ and J.path(J.unfilter(base)[0]) != "network.species":
+        ctx.unrec("R1", f"{fn}:species-loop", (PHYS, it[5]), f"the sum ranges over {J.show(base)}, not recognisably the species list")
         return
-    x, guards, sets2 = term
+    ctx.check(base == SPECIES_SEQ and it[7] is None, "R1", f"{fn}:species-loop", (PHYS, it[5]),
+              "the sum ranges over every entry of network.species, each paired with its own abundance symbol",
+              expected="for spec in network.species (unfiltered)", found=J.show(itx) + (f" if {J.show(it[7])}" if it[7] else ""))
+    # the term: the one output of the loop body that mentions the species (other outputs are layout)
+    terms = []
+    for x, env_, guards in _scan(tree, it[3], env2):
+        if x[0] == "out":
+            e = _expr(tree, x, x[1], env_)
+            if _mentions(e, svar):
+                terms.append((x, e, guards))
+        elif x[0] == "for":
+            ctx.unrec("R1", f"{fn}:term", (PHYS, x[5]), "nested loop inside the species loop: shape not understood")
+            return
+    if len(terms) != 1:
+        (ctx.missing if not terms else ctx.unrec)("R1", f"{fn}:term", (PHYS, it[5]), f"expected one `count*abundance + ` output per species, found {len(terms)}")
+        return
+    x, e, guards = terms[0]
     natom = ("call", ("attr", ("attr", svar, "element_count"), "get"), (FIRST_KEY(evar),), ())
-    parts = [_resolve(p, sets2) for p in x[1][1]]
-    ok = len(parts) == 4 and parts[1] == ("const", "*") and parts[2] == abvar and parts[3] == ("const", " + ") and \
-        parts[0][0] == "call" and parts[0][1][0] == "attr" and parts[0][1][2] == "format" and parts[0][2] == (natom,)
+    got = J.str_pieces(e)
+    ab = [("lit", "*y[IDX_"), ("val", ("attr", svar, "alias")), ("lit", "] + ")]
+    ok = len(got) == 4 and got[0][0] in ("fmt", "val") and got[0][-1] == natom and got[1:] == ab \
+        and (got[0][0] == "val" or re.fullmatch(r"\.\d+[fe]|[eg]", got[0][1]) is not None)
     ctx.check(ok, "R1", f"{fn}:term", (PHYS, x[2]),
               "each term is <count of this element in this species> * <this species' abundance> + ",
-              expected=f"format({J.show(natom)}) ~ '*' ~ {J.show(abvar)} ~ ' + '", found=" ~ ".join(J.show(p) for p in parts))
-    gok = len(guards) == 1 and guards[0][0] == "if+" and _resolve(guards[0][1], sets2) == natom
+              expected=f"format({J.show(natom)}) ~ '*y[IDX_' ~ {J.show(svar)}.alias ~ '] + '",
+              found=" ~ ".join(repr(p[1]) if p[0] == "lit" else J.show(p[-1]) for p in got))
+    tests = [(g[0], J.subst(J.inline_macros(tree, PHYS, g[1]), g[2])) for g in guards]
+    gok = len(tests) == 1 and tests[0] == ("if+", natom)
     ctx.check(gok, "R1", f"{fn}:term-guard", (PHYS, x[2]), "a term is skipped only when the count is zero/absent",
-              found="; ".join(J.show(_resolve(g[1], sets2)) for g in guards))
+              found="; ".join(("" if k == "if+" else "not ") + J.show(t) for k, t in tests))
 
 
 ALLOWED = {
@@ -256,6 +335,9 @@ MUTANTS = [
     {"name": "electron-hash-name", "file": SPECIES, "old": '            hash("Electron")\n            if self.is_electron', "new": '            hash(self.name)\n            if self.is_electron', "rules": ["R3"]},
 ]
 MUTANTS += [
+    {"name": "abund-of-other-list", "file": PHYS, "old": "zip(network.species, specabund)", "new": "zip(network.species | sort(attribute='name'), specabund)", "rules": ["R1"]},
+    {"name": "term-count-of-element-species", "file": PHYS, "old": '{{ "{:.1f}".format(natom) ~ "*" ~ ab ~ " + "}}', "new": '{{ "{:.1f}*{} + ".format(elem.element_count.get(elemname), ab) }}', "rules": ["R1"]},
+    {"name": "macro-header-last-key", "file": MACROS, "old": "#define IDX_ELEM_{{ spec.element_count.keys() | first }} {{ loop.index0 }}", "new": "{% set sym = spec.element_count | last %}\n#define IDX_ELEM_{{ sym }} {{ loop.index0 }}", "rules": ["R1"]},
     {"name": "element-count-dict-update", "file": SPECIES, "old": "        if element in self.element_count.keys():\n            self.element_count[element] += count\n        else:\n            self.element_count[element] = count\n", "new": "        self.element_count.update({element: count})\n", "rules": ["R6"]},
     {"name": "element-count-overwrite", "file": SPECIES, "old": "        if element in self.element_count.keys():\n            self.element_count[element] += count\n        else:\n            self.element_count[element] = count\n", "new": "        self.element_count[element] = count\n", "rules": ["R6"]},
     {"name": "cvode-fex-zeroes-exhausted", "file": "naunet/templates/cvode/src/naunet_fex.cpp.j2", "old": "#if ((NHEATPROCS || NCOOLPROCS) && NAUNET_DEBUG)\n    printf(\"Total heating/cooling rate", "new": "    for (int i = 0; i < NSPECIES; i++) {\n        if (y[i] <= 0.0 && ydot[i] < 0.0) ydot[i] = 0.0;\n    }\n#if ((NHEATPROCS || NCOOLPROCS) && NAUNET_DEBUG)\n    printf(\"Total heating/cooling rate", "rules": ["R5"]},
@@ -263,5 +345,11 @@ MUTANTS += [
     {"name": "alias-single-M", "file": SPECIES, "old": 'else "M" * abs(self.charge),', "new": 'else "M",', "rules": ["R4"]},
 ]
 BENIGN = [
+    {"name": "abund-symbol-per-species", "edits": [
+        {"file": PHYS, "old": '        {% set specabund = network.species | map(attribute="alias") | map("prefix", "y[IDX_") | map("suffix", "]") -%}\n', "new": ""},
+        {"file": PHYS, "old": "        return {% for spec, ab in zip(network.species, specabund) -%}\n", "new": '        return {% for spec in network.species -%}\n               {% set ab = spec.alias | prefix("y[IDX_") | suffix("]") -%}\n'}]},
+    {"name": "term-one-format-string", "file": PHYS, "old": '{{ "{:.1f}".format(natom) ~ "*" ~ ab ~ " + "}}', "new": '{{ "{:.1f}*{} + ".format(natom, ab) }}'},
+    {"name": "guard-uses-set-name", "file": PHYS, "old": "if (elemidx == IDX_ELEM_{{ elem.element_count.keys() | first }}) {", "new": "if (elemidx == IDX_ELEM_{{ elemname }}) {"},
+    {"name": "macro-header-set-name", "file": MACROS, "old": "#define IDX_ELEM_{{ spec.element_count.keys() | first }} {{ loop.index0 }}", "new": "{% set sym = spec.element_count | first %}\n#define IDX_ELEM_{{ sym }} {{ loop.index0 }}"},
     {"name": "eq-disjuncts-reordered", "file": SPECIES, "old": "                (self.is_electron and o.is_electron)\n                or (", "new": "                self.name == o.name\n                or (self.is_electron and o.is_electron)\n                or ("},
 ]
